@@ -74,7 +74,7 @@ def main():
                      "kind_free_text": "Lean 4 models (SCoda/Model), generated tables and translated functions (SCoda/Gen), property theorems (SCoda/Props), line-protocol driver; Python harness runs the real implementation in-process"}],
         "checks": checks,
         "not_applicable": [],
-        "notes": "All 20 properties are claimed. Known findings (genuine defects recorded, not repaired) are in known_findings.json; fix: commits in /repo repair 16 defects (see DESIGN.md §1/§6).",
+        "notes": "All 20 properties are claimed. Known findings (genuine defects recorded, not repaired) are in known_findings.json; fix: commits in /repo repair the defects listed as fixed in known_findings.json (18 commits) (see DESIGN.md §1/§6).",
     }
     with open(os.path.join(HERE, "MANIFEST.json"), "w") as f:
         json.dump(manifest, f, indent=1)
